@@ -15,6 +15,7 @@ from geometer import (
 
 from .. import common as C
 from .. import exact as X
+from .. import zoo as Z
 from ..runner import Checker, Fail, Law, Skip, call
 from .c16 import DIRS
 
@@ -43,7 +44,8 @@ def poly_case(draw, tier="quick"):
     idx = sorted(draw(st.permutations(range(16)))[:n])
     return {"idx": idx, "radii": [draw(st.integers(1, 3)) for _ in range(n)], "off": [draw(C.ints(6)), draw(C.ints(6))], "embed": draw(st.sampled_from([None, "3d", "3d"])),
             "frame": [draw(C.ints(3)) for _ in range(9)], "rot": draw(st.integers(0, 6)), "rev": draw(st.booleans()), "coll": draw(st.sampled_from([False, False, True])),
-            "scales": [draw(C.scale()) for _ in range(7)], "iso": [draw(st.integers(-11, 11)), draw(C.ints(5)), draw(C.ints(5)), draw(C.ints(5))], "use_iso": draw(st.booleans())}
+            "scales": [draw(C.scale()) for _ in range(7)], "iso": [draw(st.integers(-11, 11)), draw(C.ints(5)), draw(C.ints(5)), draw(C.ints(5))], "use_iso": draw(st.booleans()), "used": draw(st.booleans()),
+            "derive": draw(st.sampled_from(Z.DERIVATIONS)), "move": [draw(st.integers(-4, 4)) for _ in range(3)]}
 
 
 def base_polygon(c):
@@ -91,12 +93,14 @@ def run_poly(c):
     H = np.concatenate([V, np.ones((n, 1))], axis=1) * np.array([sc[i % 7] for i in range(n)])[:, None]
     ck = Checker()
     tag = f"polygon{d}" + (":isometry" if t is not None else "")
-    if c["coll"]:
-        H2 = H.copy()
-        poly = PolygonCollection(np.stack([H, np.roll(H2, 1, axis=0)]))
-    else:
-        poly = Polygon(H)
+    how = c.get("derive")
+    build = (lambda rows: PolygonCollection(np.stack([rows, np.roll(rows.copy(), 1, axis=0)]))) if c["coll"] else (lambda rows: Polygon(rows))
+    poly, f = call(tag + ":construct" + (f":derived({how})" if how else ""), Z.derive_moved, build, H, how, c.get("move", [1, 2, 3]))
+    if f:
+        return [f]
     if t is not None:
+        if c.get("used"):
+            Z.warm(poly)  # the polygon has been measured before it is moved
         poly, f = call("apply", lambda: t * poly)
         if f:
             return [f]
@@ -192,7 +196,8 @@ def run_eq(c):
 def solid_case(draw, tier="quick"):
     what = draw(st.sampled_from(["segment", "triangle2", "triangle3", "tetrahedron", "cuboid", "regular2", "regular3", "polyhedron_eq"]))
     return {"what": what, "v": [draw(C.ints(6)) for _ in range(12)], "n": draw(st.integers(3, 9)), "r": draw(st.sampled_from([1, 2, 3, 0.5, 2.5])), "perm": draw(st.permutations(range(6))),
-            "lens": [draw(st.integers(1, 4)) for _ in range(3)], "coll": draw(st.booleans()), "s": [draw(C.scale()) for _ in range(4)]}
+            "lens": [draw(st.integers(1, 4)) for _ in range(3)], "coll": draw(st.booleans()), "s": [draw(C.scale()) for _ in range(4)],
+            "derive": draw(st.sampled_from([None, None, "translation*", "+point", "scaling*"])), "move": [draw(st.integers(-4, 4)) for _ in range(3)]}
 
 
 def orth_frame(v):
@@ -208,6 +213,28 @@ def orth_frame(v):
 def run_solid(c):
     what, v = c["what"], c["v"]
     ck = Checker()
+    how = c.get("derive")
+
+    def der(obj):
+        """optionally the same solid obtained by derivation from an already used one (zoo.rederive)"""
+        if not how:
+            return obj
+        r, f = call(f"{what}:derive({how})", Z.rederive, obj, c.get("move", [1, 2, 3]), how)
+        if f:
+            raise _Derive(f)
+        return r
+
+    try:
+        return _run_solid(c, what, v, ck, der)
+    except _Derive as e:
+        return [e.args[0]]
+
+
+class _Derive(Exception):
+    pass
+
+
+def _run_solid(c, what, v, ck, der):
     sc = [C.scale_value(s) for s in c["s"]]
     if what == "segment":
         d = 2 + (v[11] % 2)
@@ -222,6 +249,7 @@ def run_solid(c):
             s = Segment(Point(np.append(a, 1) * sc[0]), Point(np.append(b, 1) * sc[1]))
             exp_len = np.linalg.norm(a - b)
             exp_mid = np.append((a + b) / 2, 1)
+        s = der(s)
         L, f = call("Segment.length", lambda: s.length)
         if f:
             ck.add(f)
@@ -243,7 +271,7 @@ def run_solid(c):
         area = abs(e1[0] * e2[1] - e1[1] * e2[0]) / 2 if d == 2 else np.linalg.norm(np.cross(e1, e2)) / 2
         if area == 0:
             raise Skip("degenerate")
-        t = Triangle(*[Point(np.append(p, 1) * s) for p, s in zip(pts, sc)])
+        t = der(Triangle(*[Point(np.append(p, 1) * s) for p, s in zip(pts, sc)]))
         a, f = call("Triangle.area", lambda: t.area)
         if f:
             ck.add(f)
@@ -274,7 +302,7 @@ def run_solid(c):
         vol = abs(np.linalg.det(np.stack([p - pts[0] for p in pts[1:]]))) / 6
         if vol == 0:
             raise Skip("degenerate")
-        s = Simplex(*[Point(np.append(p, 1) * k) for p, k in zip(pts, sc)])
+        s = der(Simplex(*[Point(np.append(p, 1) * k) for p, k in zip(pts, sc)]))
         r, f = call("Simplex.volume", lambda: s.volume)
         if f:
             ck.add(f)
@@ -295,6 +323,7 @@ def run_solid(c):
         cub, f = call("Cuboid", lambda: Cuboid(P(o), P(o + eu), P(o + ew), P(o + ex)))
         if f:
             return [f]
+        cub = der(cub)
         if what == "cuboid":
             a, f = call("Cuboid.area", lambda: cub.area)
             if f:
@@ -346,6 +375,7 @@ def run_solid(c):
             rp, f = call("RegularPolygon", lambda: RegularPolygon(P(ctr), r, n, axis=P(ax)))
         if f:
             return [f]
+        rp = der(rp)
         V = rp.array[:, :-1] / rp.array[:, -1:]
         ck.check(V.shape[0] == n and np.allclose(np.linalg.norm(V - ctr, axis=1), r, atol=1e-9), f"{what}:vertices-on-circle", np.linalg.norm(V - ctr, axis=1).tolist())
         side = 2 * r * math.sin(math.pi / n)
@@ -378,10 +408,10 @@ def run_solid(c):
 
 LAWS = [
     Law("polygon_measures", lambda tier: poly_case(tier), run_poly, poly_nontrivial,
-        lambda c: ["embedded3d" if c["embed"] else "planar", "coll" if c["coll"] else "single"] + (["reversed"] if c["rev"] else []) + (["isometry"] if c["use_iso"] else []),
+        lambda c: ["embedded3d" if c["embed"] else "planar", "coll" if c["coll"] else "single"] + (["reversed"] if c["rev"] else []) + (["isometry"] if c["use_iso"] else []) + (["measured-before-moved"] if c["use_iso"] and c.get("used") else []) + (["derived-from-a-used-object"] if c.get("derive") else []),
         {"quick": 1500, "thorough": 30000}, "Polygon.area / centroid vs exact shoelace, through embeddings, isometries, vertex-cycle rotations/reversal, rescaled vertices", shard=200),
     Law("polygon_equality", lambda tier: eq_case(tier), run_eq, lambda c: True, lambda c: [c["variant"], "embedded3d" if c["embed"] else "planar"], {"quick": 1200, "thorough": 20000},
         "== true exactly for the same vertex cycle up to rotation / reversal / rescaling, false for perturbed cycles", shard=300),
-    Law("solids", lambda tier: solid_case(tier), run_solid, lambda c: any(c["v"][6:9]), lambda c: [c["what"]], {"quick": 1600, "thorough": 25000},
+    Law("solids", lambda tier: solid_case(tier), run_solid, lambda c: any(c["v"][6:9]), lambda c: [c["what"]] + (["derived-from-a-used-object"] if c.get("derive") else []), {"quick": 1600, "thorough": 25000},
         "Segment.length/midpoint, Triangle area/volume/circumcenter/centroid, tetrahedron volume, Cuboid area and counts, RegularPolygon, polyhedron ==", shard=150),
 ]
